@@ -110,6 +110,9 @@ func NewSys(r *ev.Run, id string, p Pool, nclients int, rich bool) *Sys {
 	return s
 }
 
+// Terminal reports that this state must not be explored further.
+func (s *Sys) Terminal() bool { return s.dead || s.broken }
+
 func (s *Sys) Close() {}
 
 func (s *Sys) blockOf(ip net.IP) int64 {
